@@ -826,11 +826,17 @@ impl Model {
         let host = self.host_of(c);
         let src = format!("{}!~{}@{}", nick, user, host);
         let mut cfg_registered = false;
+        let mut mask_user = false;
         let mut required: Option<String> = self.cfg.password.clone();
         if let Some(uc) = self.cfg.users.iter().rev().find(|u| u.name == user) {
             // (the last entry with that name wins, as with a name -> index map)
+            if uc.mask.is_some() {
+                mask_user = true;
+            }
             if let Some(m) = &uc.mask {
                 if !glob(m, &src) {
+                    se.cur |= P14;
+                    se.extra_hint |= P14 | P03;
                     self.push(se, c, "ERROR".into());
                     se.labels.push("reg/mask_mismatch".into());
                     return;
@@ -875,7 +881,7 @@ impl Model {
         if self.users.len() > self.max_users {
             self.max_users = self.users.len();
         }
-        se.cur = P03 | P20 | P02;
+        se.cur = P03 | P20 | P02 | if mask_user { P14 } else { 0 };
         self.push(se, c, format!("001 :Welcome to the {} Network, {}", self.cfg.network, src));
         for n in ["002", "003", "004", "005", "005", "005"] {
             self.push(se, c, n.to_string());
@@ -992,6 +998,7 @@ impl Model {
         // decisions are taken against the state before the command (as one atomic command)
         let mut count = self.users[&nick].chans.len();
         let mut decisions: Vec<(String, bool)> = vec![];
+        let mut mask_chans: BTreeSet<String> = BTreeSet::new();
         let mut first_seen: BTreeSet<String> = BTreeSet::new();
         for (i, name) in names.iter().enumerate() {
             let key = keys.as_ref().map(|k| k[i].as_str());
@@ -1009,6 +1016,10 @@ impl Model {
                 }
                 Some(ch) => {
                     let v = self.join_violations(&nick, ch, key, count);
+                    let masks_involved = !ch.ban.is_empty() || (ch.fi && !ch.invex.is_empty());
+                    if masks_involved {
+                        mask_chans.insert(name.clone());
+                    }
                     if v.is_empty() {
                         decisions.push((name.clone(), true));
                         count += 1;
@@ -1021,7 +1032,10 @@ impl Model {
                         ));
                     } else {
                         let opts: Vec<String> = v.iter().map(|n| format!("{} {}", n, name)).collect();
-                        se.cur = P07;
+                        se.cur = P07 | if masks_involved { P14 } else { 0 };
+                        if masks_involved {
+                            se.extra_hint |= P07 | P14;
+                        }
                         self.push_e(se, Exp::AnyOf { c, options: opts });
                         se.cur = P07 | P04;
                         se.labels.push(format!("JOIN/refused/{}", v.join("+")));
@@ -1074,7 +1088,7 @@ impl Model {
                 continue;
             }
             let ch = self.chans[name].clone();
-            se.cur = P07 | P04 | if created.contains(name) || ch.preconfigured { P16 } else { 0 };
+            se.cur = P07 | P04 | if created.contains(name) || ch.preconfigured { P16 } else { 0 } | if mask_chans.contains(name) { P14 } else { 0 };
             se.cur_rank = P08 | P16 | P15 | P09 | P07;
             let jl = format!(":{} JOIN {}", src, name);
             self.push(se, c, jl.clone());
@@ -1552,6 +1566,7 @@ impl Model {
         let mut required: Vec<String> = vec![];
         let mut optional: Vec<String> = vec![];
         let mut refused = false;
+        let mut masks_touched = false;
         let src = self.users[nick].src();
         self.touched.push((chan.to_string(), P08));
         if !me.is_halfop() {
@@ -1580,6 +1595,7 @@ impl Model {
                                 'e' => &mut chm.exc,
                                 _ => &mut chm.invex,
                             };
+                            masks_touched = true;
                             let item = format!("{}{} {}", if set { '+' } else { '-' }, l, mask);
                             let effective = if set { list.insert(mask.clone()) } else { list.remove(&mask) };
                             if l == 'b' {
@@ -1597,6 +1613,7 @@ impl Model {
                             se.labels.push(format!("MODE/{}{}/ok/rank{}", if set { '+' } else { '-' }, l, me.code()));
                         } else {
                             // list query
+                            se.cur = P08 | P14;
                             let chn = self.chans[chan].clone();
                             match l {
                                 'b' => {
@@ -1727,6 +1744,7 @@ impl Model {
             self.push_e(se, Exp::AtLeast1 { c, line: format!("482 {}", chan) });
         }
         let head = format!(":{} MODE {}", src, chan);
+        se.cur = P08 | if masks_touched { P14 } else { 0 };
         let members: Vec<String> = self.chans[chan].members.keys().cloned().collect();
         if !required.is_empty() || !optional.is_empty() {
             for m in members {
@@ -1906,12 +1924,15 @@ impl Model {
                         let restricted = ch.fnn || ch.fs || ch.fm || !ch.ban.is_empty();
                         if !may {
                             if !notice {
-                                se.cur = P10;
+                                se.cur = P10 | if !ch.ban.is_empty() { P14 } else { 0 };
                                 self.push(se, c, format!("404 {}", chan));
+                            }
+                            if !ch.ban.is_empty() {
+                                se.extra_hint |= P10 | P14 | P01;
                             }
                             continue;
                         }
-                        se.cur = P01 | if restricted { P10 } else { 0 } | if prefix.is_empty() { 0 } else { P08 | P15 };
+                        se.cur = P01 | if restricted { P10 } else { 0 } | if prefix.is_empty() { 0 } else { P08 | P15 } | if !ch.ban.is_empty() { P14 } else { 0 };
                         let members: Vec<(String, Rank)> = ch.members.iter().map(|(n, r)| (n.clone(), *r)).collect();
                         for (m, r) in members {
                             if m == nick {
@@ -1990,6 +2011,8 @@ impl Model {
         let mask = p[0].clone();
         let asker = self.user_of_conn(c).unwrap().clone();
         if mask.contains('*') || mask.contains('?') {
+            se.cur |= P14;
+            se.extra_hint |= P14 | P04;
             let users: Vec<MUser> = self.users.values().cloned().collect();
             for u in users {
                 if (glob(&mask, &u.nick) || glob(&mask, &u.src()) || glob(&mask, &u.real)) && self.visible_to(&asker, &u) {
@@ -2049,6 +2072,8 @@ impl Model {
         let mut nicks: BTreeSet<String> = BTreeSet::new();
         for m in &masks {
             if m.contains('*') || m.contains('?') {
+                se.cur |= P14;
+                se.extra_hint |= P14 | P04;
                 for n in self.users.keys() {
                     if glob(m, n) {
                         nicks.insert(n.clone());
@@ -2159,11 +2184,15 @@ impl Model {
                     self.push(se, c, "464".into());
                     se.labels.push("OPER/wrong_password".into());
                 } else if o.mask.as_ref().map_or(false, |m| !glob(m, &src)) {
+                    se.cur |= P14;
                     self.push(se, c, "491".into());
                     se.labels.push("OPER/mask_mismatch".into());
                 } else {
                     let u = self.users.get_mut(&nick).unwrap();
                     se.labels.push(format!("OPER/ok{}", if u.modes.is_oper() { "/repeat" } else { "" }));
+                    if o.mask.is_some() {
+                        se.cur |= P14;
+                    }
                     u.modes.o = true;
                     self.touched.push((nick.clone(), P11 | P19));
                     self.push(se, c, "381".into());
